@@ -1,38 +1,50 @@
-(* Property theorems for C01 -- statements only; proofs are `exact` of lemmas. *)
+(* Property theorems for C01 -- statements only; proofs are `exact` of lemmas.
+   `variant` (C01/Field.v) says which source is modelled: v0 = /repo before the
+   repairs proposed here, v1 = with all of them; translate/tr_readpath.py decides
+   the flags from the source at every run.  The general theorems hold for every
+   variant. *)
 From Coq Require Import ZArith List.
 From GD Require Import C06.Convert C01.Field C01.Read C01.Inst C01.ReadProofs C01.Witness C01.WitnessProofs.
 Import ListNotations.
 Local Open Scope Z_scope.
 
 (* The full statement (kept visible):
-   read_matches_spec_statement :=
+   read_matches_spec_statement v :=
      forall A db f rt s n, wf db f -> 0 <= s -> 0 <= n ->
-       impl_read A db rt f s n = Some (spec_window A db rt f s n).
-   It is false of the unchanged code. *)
-Theorem read_matches_spec_refuted : ~ read_matches_spec_statement.
+       impl_read A db v rt f s n = Some (spec_window A db rt f s n).
+   It is false of the unrepaired code. *)
+Theorem read_matches_spec_refuted : ~ read_matches_spec_statement v0.
 Proof. exact statement_refuted. Qed.
 
-(* On the covered region -- every field type, any nesting depth, any sample
-   rates, any window, any value algebra -- gd_getdata returns exactly the
+(* On the covered region -- every source variant, field type, nesting depth,
+   sample rates, window and value algebra -- gd_getdata returns exactly the
    window the Standards define (count and every value). *)
 Theorem read_matches_spec_partial :
-  forall (A : Alg) (db : database) (f : field) (rt : ctype) (s n : Z),
-    wf db f -> 0 <= n -> covered A db rt f s n ->
-    impl_read A db rt f s n = Some (spec_window A db rt f s n).
+  forall (A : Alg) (db : database) (v : variant) (f : field) (rt : ctype) (s n : Z),
+    wf db f -> 0 <= n -> covered A db v rt f s n ->
+    impl_read A db v rt f s n = Some (spec_window A db rt f s n).
 Proof. exact read_ok. Qed.
+
+(* With the repairs C01-2/3/4 nothing is excluded for fields without MPLEX:
+   every window, aligned or not, also before sample zero. *)
+Theorem read_matches_spec_repaired :
+  forall (A : Alg) (db : database) (v : variant) (f : field) (rt : ctype) (s n : Z),
+    read_repaired v -> wf db f -> mplex_free f -> 0 <= n ->
+    impl_read A db v rt f s n = Some (spec_window A db rt f s n).
+Proof. exact read_ok_repaired. Qed.
 
 (* the returned count ends exactly at the end-of-field *)
 Theorem read_count_partial :
-  forall (A : Alg) (db : database) (f : field) (rt : ctype) (s n : Z),
-    wf db f -> 0 <= n -> covered A db rt f s n ->
-    read_count A db rt f s n = Some (spec_count db f s n).
+  forall (A : Alg) (db : database) (v : variant) (f : field) (rt : ctype) (s n : Z),
+    wf db f -> 0 <= n -> covered A db v rt f s n ->
+    read_count A db v rt f s n = Some (spec_count db f s n).
 Proof. exact read_count_ok. Qed.
 
 (* sample i of the result is the documented value of absolute sample s+i *)
 Theorem read_sample_partial :
-  forall (A : Alg) (db : database) (f : field) (rt : ctype) (s n i : Z),
-    wf db f -> 0 <= n -> covered A db rt f s n -> 0 <= i < spec_count db f s n ->
-    option_map (fun l => nthZ l i (garbage A)) (impl_read A db rt f s n)
+  forall (A : Alg) (db : database) (v : variant) (f : field) (rt : ctype) (s n i : Z),
+    wf db f -> 0 <= n -> covered A db v rt f s n -> 0 <= i < spec_count db f s n ->
+    option_map (fun l => nthZ l i (garbage A)) (impl_read A db v rt f s n)
     = Some (spec_val A db rt f (s + i)).
 Proof. exact read_sample_ok. Qed.
 
@@ -43,32 +55,33 @@ Theorem spec_inputs_below_eof :
     elt k (emin e1 (escale e2 s1 s2)) -> elt k e1 /\ elt (k * s2 / s1) e2.
 Proof. exact spec_inputs_exist. Qed.
 
-(* the excluded regions are inhabited by failures of the unchanged code *)
+(* the excluded regions are inhabited by failures of the unrepaired code ... *)
 Theorem unaligned_start_witness :
-  impl_read XAlg db_ab F64 m_ab 1 4 =
+  impl_read XAlg db_ab v0 F64 m_ab 1 4 =
     Some [XV 4626322717216342016; XV 4629137466983448576; XV 4635329916471083008; XV 4636737291354636288] /\
   spec_window XAlg db_ab F64 m_ab 1 4 =
     [XV 4626322717216342016; XV 4633641066610819072; XV 4635329916471083008; XV 4639481672377565184] /\
-  uncovered XAlg db_ab F64 m_ab 1 4 = [TUnaligned].
+  uncovered XAlg db_ab v0 F64 m_ab 1 4 = [TUnaligned].
 Proof. exact witness_unaligned. Qed.
 
-Theorem second_input_empty_witness :
-  impl_read XAlg db_short F64 m_ab 5 4 = Some [XU; XU; XU; XU] /\
-  spec_window XAlg db_short F64 m_ab 5 4 = [] /\
-  uncovered XAlg db_short F64 m_ab 5 4 = [TEmpty2].
-Proof. exact witness_second_empty. Qed.
+(* ... which the repair removes *)
+Theorem unaligned_start_repaired_witness :
+  impl_read XAlg db_ab v1 F64 m_ab 1 4 = Some (spec_window XAlg db_ab F64 m_ab 1 4) /\
+  uncovered XAlg db_ab v1 F64 m_ab 1 4 = [].
+Proof. exact witness_unaligned_repaired. Qed.
 
 Theorem raw_pad_witness :
-  impl_read XAlg db_fo F64 a 2 4 =
+  impl_read XAlg db_fo v0 F64 a 2 4 =
     Some [XV 0; XV 0; XV 4607182418800017408; XV 4611686018427387904] /\
   spec_window XAlg db_fo F64 a 2 4 =
     [XV 9221120237041090560; XV 9221120237041090560; XV 4607182418800017408; XV 4611686018427387904] /\
-  uncovered XAlg db_fo F64 a 2 4 = [TRawPad].
+  uncovered XAlg db_fo v0 F64 a 2 4 = [TRawPad] /\
+  impl_read XAlg db_fo v1 F64 a 2 4 = Some (spec_window XAlg db_fo F64 a 2 4).
 Proof. exact witness_raw_pad. Qed.
 
 (* the hypotheses of the partial theorems are satisfiable (two rates, aligned start) *)
 Example covered_is_inhabited :
-  wf db_ab m_ab /\ covered XAlg db_ab F64 m_ab 2 4 /\
-  impl_read XAlg db_ab F64 m_ab 2 4 =
+  wf db_ab m_ab /\ covered XAlg db_ab v0 F64 m_ab 2 4 /\
+  impl_read XAlg db_ab v0 F64 m_ab 2 4 =
     Some [XV 4633641066610819072; XV 4635329916471083008; XV 4639481672377565184; XV 4640537203540230144].
 Proof. exact covered_example. Qed.
